@@ -1,6 +1,6 @@
 (* Properties_C06.v — the theorems that decide property C06 on the model, each stated in full and closed by
    `exact <lemma>`; the lemmas live in the Proofs_*.v files.  Nothing else belongs in this file. *)
-From Theo Require Import Base VMModel VMSpec VMStatements Proofs_VM_mem Proofs_VM_dbg.
+From Theo Require Import Base VMModel VMSpec VMStatements Proofs_VM_mem Proofs_VM_dbg CompiledStatements Regex Tokens Errors Lexer Scan MacroExtract Grammar LR MacroApply Parser VMCheck VMCheckStatements GenModel Compile Gen_Lexer Gen_Consts CompileStatements Proofs_Compiled.
 Local Open Scope Z_scope.
 
 Theorem C06_execute :
@@ -35,3 +35,15 @@ Theorem C06_enabled :
     forall b, smem bp_ltb (enabled s) b = req_fold p h b.
 Proof. exact C06_enabled_proof. Qed.
 Print Assumptions C06_enabled.
+
+Theorem C06_compiled :
+  forall files main c,
+    compile files main = Ok c ->
+    getCurrentBreak (init (cr_prog c)) = None /\
+    forall h fuel s, run_hist fuel h (init (cr_prog c)) = Ok s ->
+      (forall b, smem bp_ltb (enabled s) b = req_fold (cr_prog c) h b) /\
+      (forall f l v, exists s' r, setBreakPoint s f l v = Ok (s', r) /\
+                                  (r = true <-> alookup bp_ltb (potential_breaks (cr_prog c)) (mkBP f l) <> None)) /\
+      (forall s' b, exec1 s = Ok (s', b) -> (b = true <-> (stop_site s (ip s) \/ halt_at s (ip s)))).
+Proof. exact C06_compiled_proof. Qed.
+Print Assumptions C06_compiled.
